@@ -1,8 +1,8 @@
 (* C01 -- Every grid point lies on its flux surface.
    The slice constants fill_* are REGENERATED from MeshRegion.fillRZ on every run (gen/Gen_Slices.v); the translator also
    insists on the reverse/transpose/refine skeleton of MeshRegion.__init__ and on the four X-point pins. *)
-From Coq Require Import QArith Qabs List Lia Lqa.
-From HT Require Import Model_Region Proof_Region.
+From Coq Require Import QArith Qabs List Lia Lqa Reals PrimFloat.
+From HT Require Import Field Model_Region Proof_Region Model_Refine Proof_Refine.
 From HG Require Import Gen_Slices.
 Import ListNotations.
 Local Open Scope Q_scope.
@@ -49,6 +49,67 @@ Theorem C01_follow_order : forall (P : Type) (flow : Q -> P) l c,
   incrS l \/ decrS l -> follow P flow 4 c l = Some (map flow l).
 Proof. intros P flow l c [H|H]; [apply follow_order_incr | apply follow_order_decr]; exact H. Qed.
 
+(* ---------------- the refinement itself (theories/Model_Refine.v, run bit-for-bit against the real methods) ---------------- *)
+
+(* refinePointNewton: a returned point has |psi - psival| < atol (an accepted iterate) or < atol*|psival| (a point accepted
+   unchanged by the early exit) -- for ANY flux function, start point, tangent and tolerance *)
+Theorem C01_newton_accepts_only_within_tolerance :
+  forall (psi : R -> R -> R) (psival : R) p t atol q,
+    refine_newton Rops psi psival p t atol = Done q ->
+    (residual psi psival q < atol \/ residual psi psival q < atol * Rabs psival)%R.
+Proof. exact refine_newton_real. Qed.
+
+(* the `while True` loop stops after at most 12 iterations whatever psi does (any arithmetic: also binary64 with nan / inf) *)
+Theorem C01_newton_terminates :
+  forall (T : Type) (O : ops T) extra f atol s fprev,
+    newton_loop O (newton_fuel + extra) 0 f atol s fprev = newton_loop O newton_fuel 0 f atol s fprev.
+Proof. intros. apply newton_fuel_enough. Qed.
+
+(* refinePoint: the result is that of the FIRST method that does not raise; SolutionError exactly when every method raises *)
+Theorem C01_refine_point_first_success :
+  forall (T : Type) (O : ops T) psi psival ls integ ms p t w atol,
+    (forall q, refine_point O psi psival ls integ ms p t w atol = Done q ->
+       exists pre m post, ms = pre ++ m :: post /\ run_method O psi psival ls integ m p t w atol = Done q /\
+                          Forall (fun m' => run_method O psi psival ls integ m' p t w atol = Fail) pre) /\
+    (refine_point O psi psival ls integ ms p t w atol = Fail <->
+       Forall (fun m => run_method O psi psival ls integ m p t w atol = Fail) ms).
+Proof. intros. split; [intro q; apply refine_point_first_success | apply refine_point_fails_iff]. Qed.
+
+(* getRefined with tolerance-respecting methods ('newton', 'integrate+newton'): an exception, or a contour of the same length
+   EVERY point of which is within the tolerance of the contour's psi value -- contours of any length *)
+Theorem C01_refined_contour_within_tolerance :
+  forall (psi : R -> R -> R) (psival : R) ls integ ms pts w atol r,
+    Forall tolerant ms ->
+    get_refined Rops psi psival ls integ ms pts w atol false 0 0 = Some r ->
+    length r = length pts /\
+    forall i, (i < length r)%nat -> (residual psi psival (nth i r (dpt Rops)) < refine_bound psival atol)%R.
+Proof. exact get_refined_real. Qed.
+
+(* the DEFAULT refine_methods ['integrate+newton', 'integrate']: within the tolerance, OR the raw result of the integrate
+   fallback after the Newton step raised -- the single path on which the code accepts a point without a tolerance test
+   (contract of solve_ivp, monitored by the residual oracle on every corpus grid) *)
+Theorem C01_default_methods :
+  forall (psi : R -> R -> R) (psival : R) ls integ p t w atol q,
+    refine_point Rops psi psival ls integ [MIntegrateNewton; MIntegrate] p t w atol = Done q ->
+    (residual psi psival q < refine_bound psival atol)%R \/
+    (integ p = Done q /\ run_method Rops psi psival ls integ MIntegrateNewton p t w atol = Fail).
+Proof. exact refine_point_default_real. Qed.
+
+(* skip_endpoints keeps exactly the points at startInd / endInd; every other point is a refined point *)
+Theorem C01_skip_endpoints :
+  forall (T : Type) (O : ops T) psi psival ls integ ms pts w atol si ei r,
+    get_refined O psi psival ls integ ms pts w atol true si ei = Some r -> (si < length pts)%nat -> (ei < length pts)%nat ->
+    length r = length pts /\ nth ei r (dpt O) = nth ei pts (dpt O) /\ (si <> ei -> nth si r (dpt O) = nth si pts (dpt O)) /\
+    forall i, (i < length pts)%nat -> i <> si -> i <> ei ->
+      refine_point O psi psival ls integ ms (nth i pts (dpt O)) (tangent_at O pts i) w atol = Done (nth i r (dpt O)).
+Proof. intros. eapply get_refined_skip_spec; eassumption. Qed.
+
+(* non-vacuity (binary64 instance, evaluated): psi = R*R + Z*Z, the point (1.5, 0.2) is moved along (1, 0) onto psi = 4 *)
+Example C01_refine_example :
+  exists q, refine_newton Fops (fun R Z => R * R + Z * Z)%float 4%float (mk2 1.5 0.2)%float (mk2 1 0)%float 2e-8%float = Done q
+            /\ PrimFloat.ltb (PrimFloat.abs (pR q * pR q + pZ q * pZ q - 4)) 2e-8 = true.
+Proof. eexists. split; vm_compute; reflexivity. Qed.
+
 (* non-vacuity *)
 Example C01_example : follow Q (fun x => x + 100) 4 (5#2) [1; 2; 3; 4] = Some [101; 102; 103; 104]
                    /\ follow Q (fun x => x + 100) 4 5 [1; 2; 3; 4] = Some [101; 102; 103; 104]
@@ -59,3 +120,9 @@ Print Assumptions C01_slices.
 Print Assumptions C01_on_surface.
 Print Assumptions C01_constant_along_y.
 Print Assumptions C01_follow_order.
+Print Assumptions C01_newton_accepts_only_within_tolerance.
+Print Assumptions C01_newton_terminates.
+Print Assumptions C01_refine_point_first_success.
+Print Assumptions C01_refined_contour_within_tolerance.
+Print Assumptions C01_default_methods.
+Print Assumptions C01_skip_endpoints.
